@@ -20,6 +20,7 @@ What is assumed, and where:
     returned tuple (`Matches`); the string-level split / join of object and user strings is C29's subject.
 -/
 import OpenFGAVerif.Proofs.IterCache
+import OpenFGAVerif.Proofs.IterCacheV2
 import OpenFGAVerif.Proofs.IterCacheTies
 
 namespace OpenFGAVerif.C09
@@ -103,6 +104,24 @@ example : (useIter (fun x : Nat => x) [El.item 0, El.fail 7, El.item 2] false 10
 theorem miss_passthrough (ops : List Op) (s : CIter α) (h : s.closing = false) :
     (s.runOps ops).1 = (rawOps ops s.under).1 :=
   (Proofs.IterCache.miss_passthrough ops s h).1
+
+/-- **flush_complete for the V2 `CachingIterator`** (`Model/IterCacheV2.lean`: own drain context with a timeout, no
+invalidation test before writing, strict size test, empty results not cached): whatever its `Stop` writes is the
+complete, non-empty, error-free answer — for every caller behaviour, every timeout moment, cache content and
+singleflight outcome. -/
+theorem flush_complete_v2 (conv : α → ρ) (script : List (El α)) (headConsumes : Bool) (maxSize : Nat) (ops : List Op)
+    (env : OpenFGAVerif.Model.IterCacheV2.VEnv)
+    (hsafe : headConsumes = false ∨ ∃ items : List α, script = items.map El.item) (w : List ρ)
+    (hw : (OpenFGAVerif.Model.IterCacheV2.useIterV conv script headConsumes maxSize ops env).2.1 = some w) :
+    ∃ items : List α, script = items.map El.item ∧ w = items.map conv ∧ items ≠ [] :=
+  Proofs.IterCacheV2.flush_complete_v2 conv script headConsumes maxSize ops env hsafe w hw
+
+/-- V2: a drain that times out in the middle writes nothing; an empty result is not cached -/
+example : (OpenFGAVerif.Model.IterCacheV2.useIterV (fun x : Nat => x) [El.item 0, El.item 1, El.item 2] false 10
+    [Op.next false] { timeoutAt := some 3 }).2.1 = none ∧
+    (OpenFGAVerif.Model.IterCacheV2.useIterV (fun x : Nat => x) ([] : List (El Nat)) false 10 [Op.next false] {}).2.1 = none ∧
+    (OpenFGAVerif.Model.IterCacheV2.useIterV (fun x : Nat => x) [El.item 0, El.item 1, El.item 2] false 10
+    [Op.next false] {}).2.1 = some [0, 1, 2] := by decide
 
 /-! ## Field elision -/
 
